@@ -1,7 +1,7 @@
 ---------------------------- MODULE OrmQuery ----------------------------
 (* C40 / C41 / C42: what an ORM query MEANS, stated relationally and independently of the ORM.
 
-   Part 1 (INIT InitGrid / InitRandom / InitExh; C40, C41).  Three tables
+   Part 1 (INIT InitPart1 = InitGrid \/ InitRandom, or InitExh; C40, C41).  Three tables
         P(id, x)            C(id, y, pid -> P.id NULL-able)            G(id, z, cid -> C.id NULL-able)
    NULL is 0, values are 1..MaxV.  A data set `ds` is a record of functions (px, cp, cy, gc, gz); the mapped classes have
         P.children  = the C rows whose pid is the parent, ordered by C.id DESCENDING      C.parent = the P row of pid (or None)
@@ -16,9 +16,9 @@
    binding (checks/c40.py: every loader-strategy / column-option assignment must produce this result and this graph;
    checks/c41.py: ORM result = this result = rows of a Core select built by the harness from Table objects).
 
-   Part 2 (INIT InitHier; C42).  A class hierarchy (root A, subclasses B1, B2 of A, C1 below B1, C2 below B1 or B2; any parent-closed
-   subset), mapped single-table or joined-table (the mapping kind is carried for the binding only: the MEANING of a query does not
-   depend on it - which is what C42 states), each class adding one attribute; rows name their class by discriminator; a holder table H
+   Part 2 (INIT InitPart2 = InitHierGrid \/ InitHier; C42).  A class hierarchy (root A, subclasses B1, B2 of A, C1 below B1, C2 below B1 or B2;
+   any parent-closed subset), mapped single-table, joined-table or mixed (the mapping kind is carried for the binding only: the MEANING of a
+   query does not depend on it, nor on any polymorphic loading option - which is what C42 states), each class adding one attribute; rows name their class by discriminator; a holder table H
    with H.items -> A.  HEval(q) defines: the rows of a query against class K are the rows whose class is K or below, each reported
    with its OWN class and exactly the attributes of that class and its ancestors.                                                *)
 EXTENDS Integers, Sequences, FiniteSets, TLC, Json
@@ -92,6 +92,7 @@ JValued == {"innery", "outery", "parx", "oparx"}
 SelJoined == {"pair", "entcol", "grp", "entgrp"}
 Sels == {"ent", "cols", "x"} \cup SelJoined
 Ords == {"none", "id", "idd", "x", "xd"}
+\* the space of query records (documentation of the grammar's extent; random queries are drawn component-wise, see RandomQ)
 QSpace == [root : Roots, pf : PFormsP \cup PFormsC, pv : Vals, jn : {"none"} \cup JDown \cup JUp, jv : Vals, sel : Sels,
            dist : BOOLEAN, ord : Ords, lim : {-1, 0, 1, 2}, off : {-1, 1, 2}]
 LimW == <<-1, -1, -1, 0, 1, 1, 2, 2>>
